@@ -47,6 +47,33 @@ def run(tier):
         else:
             sig = "%s %s" % (e["ev"], e.get("smiles"))
         rep.fail(clause, sig, detail=e, replay={"event": e}, group=grp)
+    # 4. the counter memo of CheckCarbonBalance: design, sensitivity, every call history replayed
+    rep.add_model(common.neg_check("MC_CountCache", "Neg_CountCache.cfg"), role="negative: memo shared by all objects")
+    res2, cstates = common.tlc_dump_states("MC_CountCache", "MC_CountCache.cfg", workers=8)
+    if not res2["ok"]:
+        raise common.MachineryError("design model violated: %s" % res2["violated"])
+    rep.add_model(res2, role="design: counter memo, all histories of <= 5 calls on 2 objects")
+    full = [s["hist"] for s in cstates if len(s["hist"]) == 5 and sum(1 for x in s["hist"] if x["op"] == "count") >= 2]
+    import random
+    random.Random(common.seed()).shuffle(full)
+    if tier == "quick":
+        full = full[:1200]
+    hf = os.path.join(wd, "hists.json")
+    with open(hf, "w") as f:
+        json.dump(full, f)
+    clog = os.path.join(wd, "c07cache.ndjson")
+    cinfo = json.loads(common.run_driver("drv_c07cache", [hf, clog, tier, common.seed()]).strip().splitlines()[-1])
+    n2, bad2, st2 = common.validate_trace("CountCache_Trace", clog)
+    rep.add_trace_stats(n2, st2)
+    cevents = {e["id"]: e for e in common.read_ndjson(clog)}
+    for eid, clause in bad2:
+        e = cevents[eid]
+        if clause.startswith("HARNESS_"):
+            raise common.MachineryError("model token bags disagree with the oracle: %r" % e)
+        hist = full[e["hist"]] if e["hist"] >= 0 else "interleaved corpus run"
+        rep.fail(clause, "count atom=%s token=%s" % (e["atom"], e["smiles"]), detail={"event": e, "history": hist},
+                 replay={"event": e, "history": hist}, group="count/" + clause)
+    rep.extra.update({"count_histories_replayed": len(full), "count_events": cinfo["count_events"]})
     if tier == "thorough":
         def corrupt(e):
             if e["ev"] == "compare" and e["verdict"] == "Balance":
@@ -73,6 +100,9 @@ def replay(path):
         data = json.load(f)
     e = data["replay"]["event"]
     e["id"] = 1
+    if e["ev"] == "count":
+        print("re-run ./check C07; failing counter call:", json.dumps(data["replay"])[:600])
+        return 1
     wd = common.workdir("replay_tmp", fresh=True)
     p = os.path.join(wd, "one.ndjson")
     common.write_ndjson(p, [e])
